@@ -14,10 +14,15 @@
     received) is what it was - for ARBITRARY lexers without recover state, any fuel, any text.
     Its ingredients: without a sink no grammar sends anything, recovers, or leaves a recover
     state ([no_sink_good]); sink-free grammars do not depend on the sink ([rfree_indep]).
+    (v) THE CONVERSE, for EVERY grammar (no restriction to committed positions), lexer, store and
+    fuel: a run with a sink that reported nothing - its log ends as it started - is, step for
+    step, the run without a sink: same verdict, value, returned lexer and store
+    ([C08_silent_run_is_sinkless]); and what the sink has received only ever grows
+    ([C08_log_only_grows]).
     Not proved (correspondence + oracle, every case run with Context::empty and Context::new(sink)):
-    the converse (a silent sink-enabled success equals the sink-less result) and the error half
-    (a sink-less failure is the sink-enabled failure or its first diagnostic) beyond (ii). *)
-From Tephra Require Import MetricsSpec CLexer LexerFacts Run Peg RunCore RunRecover RunSink.
+    the error half (a sink-less failure is the sink-enabled failure or its first diagnostic)
+    beyond (ii). *)
+From Tephra Require Import MetricsSpec CLexer LexerFacts Run Peg RunCore RunRecover RunSink RunSilent.
 
 Theorem C08_sinkless_success_reproduced :
   forall fuel g lx c0 c1 st v lx' st',
@@ -42,6 +47,18 @@ Theorem C08_sink_free_grammars_ignore_the_sink :
   run fuel g lx c st = run fuel g lx c' st.
 Proof. exact rfree_indep. Qed.
 Print Assumptions C08_sink_free_grammars_ignore_the_sink.
+
+Theorem C08_silent_run_is_sinkless :
+  forall fuel g lx c1 c0 st r,
+  crel c1 c0 -> has_sink c0 = false -> run fuel g lx c1 st = r -> log (snd r) = log st ->
+  run fuel g lx c0 st = r.
+Proof. exact silent_run_is_sinkless. Qed.
+Print Assumptions C08_silent_run_is_sinkless.
+
+Theorem C08_log_only_grows :
+  forall fuel g lx c st, exists more, log (snd (run fuel g lx c st)) = log st ++ more.
+Proof. exact log_only_grows. Qed.
+Print Assumptions C08_log_only_grows.
 
 (** [comm] is satisfiable by grammars that do recover: a list of recovering items inside brackets
     after an optional prefix *)
